@@ -1,6 +1,6 @@
 """Anchors and shared rules for the accept tasks (used by C17, C18, C20)."""
 from ..sym import show, walk_expr
-from ..common import short, awaits
+from ..common import short, awaits, type_holds
 from .. import pathq
 from . import names
 
@@ -103,7 +103,7 @@ def check_accept_loop(f, rep, rule, b, key_prefix):
             if ev.kind == "call" and ev.extra != "inlined" and not pathq.is_poll(ev):
                 # the callback is a captured Fn: calling it shows up as Fn::call on a captured field
                 if short(ev.name) in ("call", "call_mut", "call_once") and ev.args and any(
-                        isinstance(x, tuple) and x and x[0] == "field" and x[1] == ("arg", 1) and names.of(f, "FramedIo") in str(x[3]) for x in walk_expr(ev.args[0])):
+                        isinstance(x, tuple) and x and x[0] == "field" and x[1] == ("arg", 1) and type_holds(f, str(x[3]), names.of(f, "FramedIo")) for x in walk_expr(ev.args[0])):
                     fut = ev.result
                     later = [e2 for e2 in p.events[i + 1:] if e2.kind == "call" and short(e2.name) == "spawn" and e2.args and any(y == fut for y in walk_expr(e2.args[0]))]
                     polled = [e2 for e2 in p.events[i + 1:] if e2.kind == "call" and short(e2.name) in ("into_future", "poll") and e2.args and any(y == fut for y in walk_expr(e2.args[0]))]
